@@ -244,10 +244,11 @@ let eval_scale inp (opss, oracle, recipe) =
   | _ ->
   match (match oracle with
          | None -> (match M.edit_script_run leq lhs rhs with M.EOk es -> Some es | _ -> None)
-         | Some o -> Some (decode_oracle o lhs rhs)) with
+         | Some o -> (try Some (decode_oracle o lhs rhs) with Failure _ -> Some [])) with
   | None -> "MODEL-OF-EDITSCRIPT-PANICS"
   | Some es ->
-    if not (M.script_okb leq lhs rhs es) then "BAD-ORACLE: the recorded script does not transform lhs into rhs" else
+    (* an oracle that runs past the end of a text (decode_oracle fails) is a script that does not fit *)
+    if (es = [] && oracle <> None && oracle <> Some "." ) || not (M.script_okb leq lhs rhs es) then "BAD-ORACLE: the recorded script does not transform lhs into rhs" else
     let c0 = M.new_chunks es in
     let stages = M.run_trace leq lhs rhs c0 ops in
     let panicked = List.exists (function M.Panic _ -> true | _ -> false) stages in
